@@ -173,12 +173,29 @@ Theorem C10_assign_op_preserves : forall en l o e h,
 Proof. exact assign_op_preserves. Qed.
 Print Assumptions C10_assign_op_preserves.
 
-Theorem C10_assign_incdec_preserves : forall en l (inc : bool) h,
-  env_ok en -> lval_pure l = true ->
-  (match l with LVar _ t => t = TInt | LIdx _ _ => True end) ->
-  exec en (assign_op_lhs l (if inc then OAdd else OSub) (ELit LInt "1" TInt)) h = exec en (SIncDec l inc) h.
+Theorem C10_assign_incdec_preserves : forall en l (inc : bool) s h,
+  env_ok en -> lval_pure l = true -> go_int_lit s = Some 1%Z -> (lval_ty l = TInt \/ lval_ty l = TFloat) ->
+  exec en (assign_op_lhs l (if inc then OAdd else OSub) (ELit LInt s (lval_ty l))) h = exec en (SIncDec l inc) h.
 Proof. exact assign_incdec_preserves. Qed.
 Print Assumptions C10_assign_incdec_preserves.
+
+(* The rule group as the checker decides it ([assign_op_rewrite]: eleven operators, the ++/-- forms, literal 1
+   matched by value, $x twice, filter m["x"].Pure; tied to the real checker on generated statements): every
+   reported well-typed statement behaves like the replacement shown in the message.  Left operands: variables
+   (plain, defined type), elements of slices / defined slices / arrays, fields through a pointer (nil => panic). *)
+Theorem C10_assign_op_rule_preserves : forall en l e s' h,
+  env_ok en -> typeof e <> None -> assign_op_rewrite (SAssign l e) = Some s' ->
+  exec en (SAssign l e) h = exec en s' h.
+Proof. exact assign_op_rule_preserves. Qed.
+Print Assumptions C10_assign_op_rule_preserves.
+
+Example C10_assign_op_rule_fires :
+  assign_op_msgs (SAssign (LSel "w" "avail" KPlain TInt) (EBinary OAndNot (ESel "w" "avail" KPlain TInt) (EIdent "b" TInt)))
+    = ["replace `w.avail = w.avail &^ b` with `w.avail &^= b`"] /\
+  assign_op_msgs (SAssign (LVarK "mf" (KDef "myF") TFloat) (EBinary OAdd (EVarK "mf" (KDef "myF") TFloat) (ELit LInt "0x1" TFloat)))
+    = ["replace `mf = mf + 0x1` with `mf++`"] /\
+  assign_op_msgs (SAssign (LIdx "xs" (ECall (FOpaque "fi" TInt) [])) (EBinary OAdd (EIndex (EIdent "xs" TInts) (ECall (FOpaque "fi" TInt) [])) (EIdent "b" TInt))) = [].
+Proof. vm_compute. repeat split. Qed.
 
 (* switchTrue: a tag that always evaluates to true without events can be dropped *)
 Theorem C10_switch_true_preserves : forall en t cases dflt h,
@@ -200,6 +217,26 @@ Theorem C10_val_swap_index_dependence_refuted :
     observe (exec en (val_swap_lhs "tmp" TInt x y) []) <> observe (exec en (val_swap_rhs x y) []).
 Proof. exact val_swap_index_dependence_refuted. Qed.
 Print Assumptions C10_val_swap_index_dependence_refuted.
+
+(* the rules as decided by the checker (tied on generated statements) *)
+Theorem C10_switch_true_rule_preserves : forall en n cases dflt s' h,
+  switch_true_rewrite (SSwitch (Some (EConst n (VBool true))) cases dflt) = Some s' ->
+  exec en (SSwitch (Some (EConst n (VBool true))) cases dflt) h = exec en s' h.
+Proof. exact switch_true_rule_preserves. Qed.
+Print Assumptions C10_switch_true_rule_preserves.
+
+(* the rule matches the spelling `true`: with a variable of that name the rewrite changes the arm taken *)
+Theorem C10_switch_true_shadowed_refuted :
+  exists en s s', env_ok en /\ switch_true_rewrite s = Some s' /\
+    observe (exec en s []) <> observe (exec en s' []).
+Proof. exact switch_true_shadowed_refuted. Qed.
+Print Assumptions C10_switch_true_shadowed_refuted.
+
+Theorem C10_val_swap_rule_refuted :
+  exists en s1 s2 s3 s', env_ok en /\ val_swap_rewrite s1 s2 s3 = Some s' /\
+    observe (exec en (SSeq s1 (SSeq s2 s3)) []) <> observe (exec en s' []).
+Proof. exact val_swap_rule_refuted. Qed.
+Print Assumptions C10_val_swap_rule_refuted.
 
 (* newDeref *)
 Theorem C10_new_deref_zero_literal : forall en t e h,
